@@ -10,7 +10,8 @@ import LenaModel.Gen.C20Facts
         -> {"ok":true,"loaded":{module:"done"|"running"},"ns":{module:{name:"opaque"|"mod:<module>"}},
             "exported":bool,"states":n,"closure":[modules]}  |  {"ok":false,"err":{..}}
   {"op":"call","e":entry,"m":module,"f":qualname,"line":n}
-        -> {"r":[per reachable state of the entry: "ok" | {"kind":..,"name":..,..} | "not-callable"]}
+        -> {"r":[per reachable state of the entry: "ok" | {"kind":..,"name":..,..} | "not-callable"],
+            "caught":[the failures the function's own handlers catch in the state after the import]}
   any request may carry "tree": {"facts":{..},"names":[..],"ext":[..]} -- the facts of another tree (the harness's
   self-test package, translated by the same translator), decoded here and run through the same definitions
   {"op":"findings"}                  -> {"findings":[{"entry":..,"module":..,"func":..,"line":..,"err":{..}}]}
@@ -76,6 +77,7 @@ def ev? (j : Json) : Option Ev := do
   | "tryExcept" => return .tryExcept (← n 1)
   | "alias" => return .alias (← n 1) (← n 2) (← natList? (a.getD 3 Json.null))
   | "tryEnd" => return .tryEnd
+  | "tryElse" => return .tryElse
   | "gbind" => return .gbind (← n 1)
   | "gunbind" => return .gunbind (← n 1)
   | _ => none
@@ -179,6 +181,8 @@ def handle (j : Json) : Json :=
       ("ext", ofList Json.str T.ext.toList), ("envs", ofList ofNat F.envs),
       ("resolvesAllEnvs", resolvesAllEnvs F), ("closuresOk", closuresOk F),
       ("exceptionsOk", exceptionsOk F), ("localsOk", localsOk F),
+      ("orderIndependent", ofList (fun env => Json.bool (orderIndependent (F.withEnv env))) F.envs),
+      ("handlers", ofNat ((F.mods.flatMap (·.funcs)).filter hasHandler).length),
       ("lenaExceptions", Json.mkObj ((zipIdx F.classes 0).filterMap (fun (i, C) =>
         if C.isLenaExc then some (nameStr T C.name, Json.bool (match F.excRoot with
           | some r => derivesB F F.classes.length i r | none => false)) else none))),
@@ -233,6 +237,20 @@ def handle (j : Json) : Json :=
               | .ok _ => Json.str "ok"
               | .error e => errJson T e
             | _ => Json.str "not-callable") states),
+            -- the failures that handlers of the function catch when it is called right after the import
+            ("caught", match states.head? with
+              | some s => (match s.statusOf m, hasHandler f with
+                | .done, true => ofList (errJson T) (callCaught F m f s)
+                | _, _ => Json.arr #[])
+              | none => Json.arr #[]),
+            -- the traced interpreter returns what `callFn` returns (theorem `callFn_eq_traced`, executed)
+            ("tracedAgrees", match (if hasHandler f then states.head? else none) with
+              | some s => Json.bool (match callFn F m f s,
+                    (execEvsT F (importMod F F.depth) ⟨m, some f.name⟩ f.evs .run [] [] s []).1 with
+                  | .ok a, .ok out => decide (a = out.σ)
+                  | .error a, .error b => decide (a = b)
+                  | _, _ => false)
+              | none => Json.bool true),
             ("badRaises", ofList (fun (r : RaiseFact) => ofNat r.line)
               (F.raises.filter (fun r => r.mod == m && nameStr T r.fn == q && !raiseOkB F r))),
             ("unaudited", ofList (fun (u : UnboundFact) => Json.str (nameStr T u.var))
